@@ -99,9 +99,9 @@ func FocusFor(prop string, tier string) Focus {
 		mul(3, KBind, KUpdateBind, KDisable, KEnable, KRefundDep)
 		f.ModSvcPct = 5
 		if prop == "C14" {
-			// "under the parameters in force": raising the minimum by governance legitimately leaves
-			// existing bindings below it, so C14 explores constant parameters
-			f.ParamChangeW = 0
+			// "under the parameters in force": a governance change may leave existing bindings below the
+			// new minimum; the oracle tolerates exactly those while nothing touches them
+			f.ParamChangeW = 2
 		}
 	case "C04":
 		mul(2, KCall, KRespond)
@@ -178,6 +178,9 @@ func GenConfig(t *rapid.T, f Focus) Config {
 		}
 		c.Funding[s] = rapid.SampledFrom(opts).Draw(t, fmt.Sprintf("fund%d", i))
 	}
+	if f.Prop == "C09" && pct(t, "reactive_module", 30) {
+		c.Reactive = true
+	}
 	if pct(t, "modsvc?", f.ModSvcPct) {
 		base := rapid.SampledFrom([]int64{1, 0, 3, 10}).Draw(t, "modprice")
 		dep := c.MinDepositFor(base) + rapid.SampledFrom([]int64{0, 1, 1000}).Draw(t, "moddepx")
@@ -204,7 +207,7 @@ func modProv(t *rapid.T, f Focus) string {
 		return hx(rep(0x5d, 20))
 	}
 	// 20 bytes unrelated; 12-byte prefix of signer 0; signer 0 extended by a letter (so that "<rest>stake" reads like a denom)
-	return rapid.SampledFrom([]string{hx(rep(0x5d, 20)), hx(rep(0xa0, 12)), hx(append(rep(0xa0, 20), 'x'))}).Draw(t, "modprov")
+	return rapid.SampledFrom([]string{hx(rep(0x5d, 20)), hx(rep(0xa0, 12)), hx(append(rep(0xa0, 20), 'x')), NonSigners[1]}).Draw(t, "modprov")
 }
 
 // ---------------------------------------------------------------------------------------------
@@ -250,11 +253,12 @@ func yearsNs(y int64) int64 { return y * 365 * 24 * 3600 * 1e9 }
 
 func fmtTime(ns int64) string { return time.Unix(0, ns).UTC().Format(time.RFC3339Nano) }
 
-var discounts = []string{"0.5", "0.9", "0.1", "0.000001", "0.999999", "0.333333"}
+// mostly short discounts (their products are exact in the chain's 18-decimal type); one with the full 18 decimals
+var discounts = []string{"0.5", "0.9", "0.3", "0.333333333333333333", "0.1", "0.000001", "0.999999", "0.333333"}
 
 // GenPricing draws a pricing text accepted by the module's schema and contract.
 func GenPricing(t *rapid.T, nowNs int64) string {
-	price := rapid.SampledFrom([]string{"10", "1", "0", "2", "3", "0.5", "1.9", "999", "1000000"}).Draw(t, "price")
+	price := rapid.SampledFrom([]string{"10", "1", "0", "2", "20", "3", "0.5", "1.9", "100", "999", "1000000"}).Draw(t, "price")
 	var sb strings.Builder
 	fmt.Fprintf(&sb, `{"price":"%sstake"`, price)
 	nt := rapid.SampledFrom([]int{0, 0, 1, 2, 3}).Draw(t, "n_time")
@@ -944,6 +948,9 @@ func (g *GenState) genOfKind(t *rapid.T, kind string) Action {
 			newBase := g.basePriceOf(b)
 			if pct(t, "upd_pricing", 50) {
 				a.Pricing = GenPricing(t, s.TimeNs)
+				if pct(t, "upd_same_pricing", 12) {
+					a.Pricing = b.Pricing // a client re-submitting the full, unchanged specification
+				}
 				if rp, err := ParseRefPricing(a.Pricing); err == nil {
 					newBase = rp.Base
 				}
